@@ -122,6 +122,16 @@ check('C13', 'oalfault', 'fault_enumeration',
       'Trusted: the independent tokenizer and offset arithmetic in engines/oalfault.py; the committed corpus (corpus/oal). '
       'Statement and expression nodes only; lines are delimited by \\n.', 'DESIGN.md §4 C13')
 
+check('C18', 'parties', 'exploration',
+      'deterministic simulation: seeded interleaving of several parties (one loader, up to four metamodels built from it, 1-2 '
+      'mutator clients) with injected rejected inputs; non-interference digests and twin-loader prefix exactness after every step',
+      'Every step of a seeded interleaving of input (valid and deliberately rejected chunks, string and file routes), build and '
+      'mutation of built metamodels (new, delete, setattr, relate, unrelate, append/delete attribute, define identifier/class, '
+      'clone) is followed by a digest of every metamodel taken through the public API: only the addressed one may change; every '
+      'build must equal the build of a fresh loader fed exactly the accepted chunks.',
+      'Trusted: the canonical form (engines/sqlgen.py). Both oracles are model-free (real twin / before-after digests).',
+      'DESIGN.md §4 C18')
+
 
 def build():
     sys.path.insert(0, HERE)
@@ -171,7 +181,7 @@ def build():
 
 if __name__ == '__main__':
     # pending properties are claimed in DESIGN.md but their check is not committed yet
-    for pid in ('C01', 'C18'):
+    for pid in ('C01',):
         PENDING[pid] = 'simulation target per DESIGN.md; check under construction and not claimed until it is committed'
     doc = build()
     with open(os.path.join(HERE, 'MANIFEST.json'), 'w') as f:
